@@ -315,6 +315,27 @@ fn hostile_chain(rng: &mut Rng, base: u64, variant: u64) -> (Vec<(u64, Vec<u8>)>
             what = "huge program header count with readable headers".to_string();
             phnum = 73; // (0x1000 - 0x40) / 56 = 72 headers fit in the page
         }
+        13 => {
+            what = "first dynamic entry straddles the end of the mapping (8 of 16 bytes readable)".to_string();
+            dyn_vaddr = 0xff8;
+        }
+        14 => {
+            what = "third dynamic entry straddles the end of the mapping".to_string();
+            dyn_vaddr = 0xfd8;
+            dynb = vec![(1, 1), (21, rdebug), (1, 2)];
+        }
+        15 => {
+            what = "r_debug straddles the end of the mapping (16 of 40 bytes readable)".to_string();
+            dynb[1].1 = base + 0xff0;
+        }
+        16 => {
+            what = "first link map straddles the end of the mapping (24 of 40 bytes readable)".to_string();
+            r_map = base + 0xfe8;
+        }
+        17 => {
+            what = "second link map straddles the end of the mapping (8 of 40 bytes readable)".to_string();
+            lms[0].3 = base + 0xff8;
+        }
         _ => {
             what = "long chain (200 link maps in a loop-free list)".to_string();
             // fits: not here; keep the default
@@ -327,12 +348,14 @@ fn hostile_chain(rng: &mut Rng, base: u64, variant: u64) -> (Vec<(u64, Vec<u8>)>
     pokes.push((phdr_addr, phs));
     let load_bias = base.wrapping_sub(load_vaddr);
     let dyn_addr = load_bias.wrapping_add(load_vaddr.wrapping_add(dyn_vaddr));
-    if dyn_addr >= base && dyn_addr + 48 <= base + 0x1000 {
+    if dyn_addr >= base && dyn_addr < base + 0x1000 {
         let mut d = Vec::new();
         for (t, v) in &dynb {
             d.extend_from_slice(&t.to_le_bytes());
             d.extend_from_slice(&v.to_le_bytes());
         }
+        // only what fits before the end of the page (the next page is unmapped)
+        d.truncate((base + 0x1000 - dyn_addr) as usize);
         pokes.push((dyn_addr, d));
     }
     let mut rd = Vec::new();
@@ -388,7 +411,7 @@ fn build_lane(rng: &mut Rng, lane: u64, with_root_sysv: bool) -> Result<Lane, St
     }
     // hostile linker chains: one page per variant
     let mut chain_variants = Vec::new();
-    for v in 0..13u64 {
+    for v in 0..18u64 {
         let i = b.anon(1, 2, 6, Fill::Zero);
         let base = b.spec.regions[i].addr;
         let (pokes, phdr, phnum, what) = hostile_chain(rng, base, v);
@@ -707,7 +730,7 @@ pub fn run_pure(rep: &mut Report, n: u64) {
 }
 
 pub fn run(rep: &mut Report, thorough: bool, release: bool) {
-    rep.rule = "live dumps in watchdogged worker subprocesses (RLIMIT_CPU 20 s, RLIMIT_AS 6 GiB, 90 s wall watchdog) of targets that map hostile linker chains (13 variants), corrupted ELF files under hostile names, /dev/shm files (inotify IN_OPEN monitor), a short /SYSV-like file name, hostile thread names; direct auxv extremes; crash registers drawn from {0,1,7,MAX-k,top of user space,vsyscall,every mapping bound +-1}; random option sets. Plus pure entry points (path/version derivation over generated names, get_stack_info over generated layouts) in-process. Outcome classes: ok/err fine; panic, abort, CPU limit, wall timeout are violations. distinct = hash(option set); non-trivial = every case".into();
+    rep.rule = "live dumps in watchdogged worker subprocesses (RLIMIT_CPU 20 s, RLIMIT_AS 6 GiB, 90 s wall watchdog) of targets that map hostile linker chains (18 variants), corrupted ELF files under hostile names, /dev/shm files (inotify IN_OPEN monitor), a short /SYSV-like file name, hostile thread names; direct auxv extremes; crash registers drawn from {0,1,7,MAX-k,top of user space,vsyscall,every mapping bound +-1}; random option sets. Plus pure entry points (path/version derivation over generated names, get_stack_info over generated layouts) in-process. Outcome classes: ok/err fine; panic, abort, CPU limit, wall timeout are violations. distinct = hash(option set); non-trivial = every case".into();
     run_live(rep, thorough, release);
     if !release {
         run_memory_images(rep, thorough);
